@@ -31,6 +31,10 @@ Script ops (domain `eq`, trees in the jvtext format):
              buffer, nor be marked constant; the driver then overwrites its buffers in place,
              destroys the source, poisons and frees the buffers: the copy must dump, serialize,
              answer lookups and compare exactly as before (ASan watches the freed buffers).
+             Optional 4th field ud: source nodes of any type given the stock serializer
+             json_object_userdata_to_json_string with a text in a block of their own (D, delete
+             function json_object_free_userdata) or in a driver buffer with a NULL delete function
+             (N): the userdata pointers, texts and delete functions are treated like the names.
 
 The direct oracle below is a Python statement of the property (denotation equality with
 Python's own float comparison, its own mutation semantics); it does not use the Coq model."""
@@ -833,6 +837,64 @@ def const_members(a, conds):
     return t, st["sel"], st["tot"]
 
 
+def apply_ud(a, rules):
+    """source nodes given the stock serializer: (tree whose annotated doubles carry the text, [(number, text, 'D'|'N')])"""
+    st = {"n": 0}
+    anns = []
+
+    def go(x, ptype, depth, idx, key):
+        if x is None:
+            return None
+        n = st["n"]
+        st["n"] += 1
+        c = dict(n=n, type=type_char(x), ptype=ptype, depth=depth, idx=idx, key=key)
+        ans = cb_answer(rules, c)
+        text = b"<u%d>" % n
+        hit = ans in ("D", "N")
+        if hit:
+            anns.append((n, text, ans))
+        if isinstance(x, list):
+            return [go(ch, "a", depth + 1, i, None) for i, ch in enumerate(x)]
+        if is_obj(x):
+            return ("o", [(k, go(ch, "o", depth + 1, None, k)) for k, ch in x[1]])
+        if is_num(x, "d") and hit:
+            return ("d", x[1], text)
+        return x
+    return go(a, "r", 0, None, None), anns
+
+
+def flip_anns(anns):
+    """the driver overwrites the first byte of each of its (N) buffers"""
+    return [(n, ((b"Y" if t[:1] == b"Z" else b"Z") + t[1:]) if k == "N" else t, k) for n, t, k in anns]
+
+
+def ud_text(anns):
+    return ",".join("%d:%s:%s" % (n, J.hx(t), k) for n, t, k in anns) if anns else "-"
+
+
+def retext(v, anns):
+    """doubles show the text of the stock serializer as their retained text"""
+    by = dict((n, t) for n, t, _ in anns)
+    st = {"n": 0}
+
+    def go(x):
+        if x is None:
+            return None
+        n = st["n"]
+        st["n"] += 1
+        if isinstance(x, list):
+            return [go(ch) for ch in x]
+        if is_obj(x):
+            return ("o", [(k, go(ch)) for k, ch in x[1]])
+        if is_num(x, "d") and n in by:
+            return ("d", x[1], by[n])
+        return x
+    return go(v)
+
+
+OBSERVATIONS = {}
+
+
 def gen_B(rng, out):
     r = rng.random()
     if r < 0.5:
@@ -850,7 +912,17 @@ def gen_B(rng, out):
         conds = ";".join(gen_cond(rng, a) for _ in range(rng.randint(1, 3)))
     else:
         conds = "-"
-    out.append(("eq B %s %s %s" % (J.dump(a), conds, gen_mut(rng, a)), {"kind": "B-const-keys"}))
+    r = rng.random()
+    if r < 0.35:
+        ud = "-"
+    elif r < 0.55:
+        ud = rng.choice(["*=N", "*=D", "m2,0=N;*=D", "to=N;ta=D", "ts=N;ti=D;td=N", "td=N", "td=D;tb=N"])
+    else:
+        ud = ";".join("%s=%s" % (gen_cond(rng, a), rng.choice("DNN")) for _ in range(rng.randint(1, 4)))
+    mut = gen_mut(rng, a)
+    if ":D" in mut:       # json_object_set_double keeps the text of the PUBLIC stock serializer (only new_double_s's private one is reset)
+        mut = ":K61"
+    out.append(("eq B %s %s %s %s" % (J.dump(a), conds, ud, mut), {"kind": "B-const-keys" if ud == "-" else "B-keys+userdata"}))
 
 
 B_EDGES = [
@@ -999,7 +1071,17 @@ def gen_small_scope(tier, out):
                             conds.append("d%d&k%s" % (len(p) + 1, J.hx(k)))
                         i += 1
             for mut in ([":K61", ":A" + "n", ":P62=i7", "/k61:I3"] if count_nodes(t) <= 3 else [":K61", ":A" + "n"]):
-                add("eq B %s %s %s" % (J.dump(t), ";".join(conds) if conds else "-", mut), "B: trees of <= %d slots x every subset of borrowed names" % (3 if q else 4))
+                add("eq B %s %s - %s" % (J.dump(t), ";".join(conds) if conds else "-", mut), "B: trees of <= %d slots x every subset of borrowed names" % (3 if q else 4))
+    # 7b. every tree of <= 3 (4) slots x every assignment of {no userdata, stock serializer + delete fn, stock serializer + caller buffer} to its nodes
+    for t in ss_upto(3 if q else 4):
+        n = count_nodes(t)
+        if n == 0 or (n == 4 and q):
+            continue
+        for assign in itertools.product("-DN", repeat=n):
+            if all(x == "-" for x in assign):
+                continue
+            rules = ";".join("c%d=%s" % (i, x) for i, x in enumerate(assign) if x != "-")
+            add("eq B %s * %s %s" % (J.dump(t), rules, ":K61" if n % 2 else ":A" + "n"), "B: trees of <= %d slots x every assignment of stock-serializer userdata (none / with delete fn / caller buffer)" % (3 if q else 4))
     # 8. every tree of <= 3 slots as a copy source x one probe per mutator at the root (thorough: 4 slots, 5 probes)
     probes = [":A" + "n", ":P61=i2", ":K61", ":I7", ":U7", ":S" + SS_LONG, ":S-", ":D3ff0000000000000", ":B0", ":Z1=t", ":X0,1", "@H1", "/i0:I1", "/k61:I1"]
     for t in ss_upto(3):
@@ -1013,7 +1095,8 @@ def gen_small_scope(tier, out):
 
 
 def extra_coverage():
-    return {"small_scope": dict(SS_COUNTS), "small_scope_total": sum(SS_COUNTS.values())}
+    return {"small_scope": dict(SS_COUNTS), "small_scope_total": sum(SS_COUNTS.values()),
+            "observations_outside_the_property_text": dict(OBSERVATIONS)}
 
 
 def gen(rng, tier):
@@ -1108,7 +1191,13 @@ def gen(rng, tier):
         gen_Y(rng, out)
     # member names in caller-owned memory
     for a, conds, mut in B_EDGES:
-        out.append(("eq B %s %s %s" % (a, conds, mut), {"kind": "B-edge"}))
+        out.append(("eq B %s %s - %s" % (a, conds, mut), {"kind": "B-edge"}))
+    for a, conds, ud, mut in [
+            ("{61=i1}", "-", "*=N", ":K61"), ("{61=i1}", "*", "*=D", ":K61"), ("i1", "-", "*=N", ":I2"), ("s78", "-", "*=N", ":S-"), ("t", "-", "*=N", ":B0"),
+            ("d3ff8000000000000", "-", "*=N", ":I1"), ("d3ff8000000000000:312e35", "-", "*=N", ":I1"), ("d3ff8000000000000:312e35", "-", "*=D", ":I1"),
+            ("[]", "-", "*=N", ":A" + "n"), ("{}", "-", "*=N", ":P61=n"), ("[i1,[s78,{61=t}]]", "*", "m2,0=N;m2,1=D", "/i1:A" + "n"),
+            ("{61=i1,62=[s78,d3ff8000000000000:312e35],63={64=t}}", "k61", "to=D;ts=N;td=N;tb=D", "/k62:A[]"), ("[d7ff8000000000000]", "-", "td=N", ":X0,1")]:
+        out.append(("eq B %s %s %s %s" % (a, conds, ud, mut), {"kind": "B-edge"}))
     for _ in range(500 if q else 15000):
         gen_B(rng, out)
     # small-scope exhaustive block (no randomness)
@@ -1330,28 +1419,36 @@ def oracle(line, meta, impl):
             return ("leak", "allocations left: " + parts[2])
         return None
     if op == "B":
-        a = J.parse(f[2])[0]
-        conds, mut = f[3], f[4]
+        a0 = J.parse(f[2])[0]
+        conds = f[3]
+        udrules, mut = (f[4], f[5]) if len(f) > 5 else ("-", f[4])
         parts = impl.split(" | ")
-        if a is None:
+        if a0 is None:
             if parts[0].split(" ")[:2] != ["B", "-1"]:
                 return ("copy-of-null", "deep copy of a NULL source did not fail: " + impl[:80])
             return None if parts[-1] == "live=0" else ("leak", "allocations left: " + parts[-1])
         h = parts[0].split(" ")
         if len(h) >= 2 and h[0] == "B" and h[1] != "0":
             return ("copy-failed", "deep copy failed: " + parts[0][:60])
-        if len(h) != 11 or live_of(parts[-1]) is None:
+        if len(h) != 16 or live_of(parts[-1]) is None:
             return ("malformed", "unexpected driver output: " + impl[:100])
+        a, anns = apply_ud(a0, udrules)                 # doubles carry the stock-serializer text as retained text
+        nnull = sum(1 for x in anns if x[2] == "N")
         ta = J.dump(canon(a))
+        ud = ud_text(anns)
         flipped, nsel, ntot = const_members(a, conds)
+        flipped = retext(flipped, flip_anns(anns))
         nf = not has_nan(a)
         eqs = bits(h[2:4])
         if eqs is None:
             return ("malformed", "unexpected driver output: " + impl[:100])
-        if h[4] != ta or h[6] != str(nsel) or h[7] != str(nsel):
-            return ("malformed", "source was not built as scripted: %s, %s buffers, %s constant names (expected %d)" % (h[4][:60], h[6], h[7], nsel))
+        if h[4] != ta or h[6] != str(nsel) or h[7] != str(nsel) or h[11] != ud or h[13] != str(nnull):
+            return ("malformed", "source was not built as scripted: %s, %s buffers, %s constant names (expected %d), userdata %s (expected %s)"
+                    % (h[4][:60], h[6], h[7], nsel, h[11][:60], ud[:60]))
         if h[5] != ta:
             return ("copy-dump-differs", "typed dump of the copy differs from the source: %s vs %s" % (h[5][:100], ta[:100]))
+        if h[12] != ud:
+            return ("copy-userdata-differs", "stock-serializer texts / delete functions of the copy: %s, of the source: %s" % (h[12][:100], ud[:100]))
         if nf and not all(eqs):
             return ("copy-unequal", "deep copy of a NaN-free tree does not compare equal (%s %s)" % (h[2], h[3]))
         if not nf and any(eqs):
@@ -1359,25 +1456,37 @@ def oracle(line, meta, impl):
         if h[8] != "0" or h[9] != "0" or h[10] != "0":
             return ("copy-shares-key-storage", "of the copy's member names %s are stored where a name of the source is, %s inside a caller buffer, "
                     "%s are marked as not owned (source built with constant-key members %s)" % (h[8], h[9], h[10], conds[:40]))
+        if h[14] != "0" or h[15] != "0":
+            return ("copy-shares-userdata-storage", "of the copy's stock-serializer texts %s are stored where a text of the source is, %s inside a caller "
+                    "buffer (source nodes given userdata by %s)" % (h[14], h[15], udrules[:40]))
         if len(parts) != 5:
             return ("malformed", "unexpected driver output: " + impl[:100])
         st_i, st_f, st_p = [p.split(" ") for p in parts[1:4]]
-        if len(st_i) != 7 or len(st_f) != 7 or len(st_p) != 3 or st_i[0] != "I" or st_f[0] != "F" or st_p[0] != "P":
+        if len(st_i) != 9 or len(st_f) != 8 or len(st_p) != 3 or st_i[0] != "I" or st_f[0] != "F" or st_p[0] != "P":
             return ("malformed", "unexpected driver output: " + impl[:100])
-        if st_i[1] != J.dump(canon(flipped)):
-            return ("malformed", "source after the in-place change of the buffers: %s, expected %s" % (st_i[1][:80], J.dump(canon(flipped))[:80]))
-        want = "%s %d/%d %d %d 2" % (ta, ntot, ntot, nf, nf)
-        if " ".join(st_i[2:]) != want:
-            return ("key-buffer-change-reaches-copy", "after the caller changed its name buffers in place the copy reads [%s], expected [%s]"
-                    % (" ".join(st_i[2:])[:120], want[:120]))
+        if st_i[1] != J.dump(canon(flipped)) or st_i[2] != ud_text(flip_anns(anns)):
+            return ("malformed", "source after the in-place change of the buffers: %s %s, expected %s %s"
+                    % (st_i[1][:80], st_i[2][:40], J.dump(canon(flipped))[:80], ud_text(flip_anns(anns))[:40]))
+        want = "%s %d/%d %d %d 2 %s" % (ta, ntot, ntot, nf, nf, ud)
+        if " ".join(st_i[3:]) != want:
+            cls = "userdata-buffer-change-reaches-copy" if (nnull and (st_i[8] != ud or st_i[3] != ta or st_i[7] != "2")) else "key-buffer-change-reaches-copy"
+            return (cls, "after the caller changed its buffers in place the copy reads [%s], expected [%s]" % (" ".join(st_i[3:])[:140], want[:140]))
         if st_f[1] != "1" or " ".join(st_f[2:]) != want:
-            return ("destroy-reaches-copy", "after the source was destroyed and the caller's name buffers freed the copy reads [%s] (put=%s), expected [%s]"
-                    % (" ".join(st_f[2:])[:120], st_f[1], want[:120]))
+            return ("destroy-reaches-copy", "after the source was destroyed and the caller's buffers freed the copy reads [%s] (put=%s), expected [%s]"
+                    % (" ".join(st_f[2:])[:140], st_f[1], want[:140]))
         ok, am = py_mutate(a, mut)
         if st_p[1] != ("ok" if ok else "bad") or st_p[2] != J.dump(canon(am)):
             return ("mutation-result", "mutation %s of the copy gave %s %s" % (mut[:60], st_p[1], st_p[2][:80]))
-        if parts[-1] != "live=0":
-            return ("leak", "allocations left: " + parts[-1])
+        # json_object_copy_serializer_data takes the delete function over from the source: the text it
+        # duplicated for a node WITHOUT delete function is released by nobody.  Not part of the text of
+        # C09 (recorded as an observation, see OBSERVATIONS); anything beyond exactly that is a leak.
+        live = live_of(parts[-1])
+        if live == str(nnull) and nnull > 0:
+            o = OBSERVATIONS.setdefault("copy-userdata-null-delete-leak", {"cases": 0, "blocks": 0, "witness": line[:200]})
+            o["cases"] += 1
+            o["blocks"] += nnull
+        elif live != "0":
+            return ("leak", "allocations left: %s (expected 0%s)" % (parts[-1], " or %d" % nnull if nnull else ""))
         return None
     if op == "Y":
         a = J.parse(f[2])[0]
